@@ -10,9 +10,11 @@ Proof. vm_compute. reflexivity. Qed.
 Lemma gen_waits_are_timed : p_init_wait_known && p_detect_wait_known = true.
 Proof. vm_compute. reflexivity. Qed.
 
+(* every time-out of the start-up dialogue, of close() and of the connection check is a known positive
+   constant (the translator emits -1 for a wait it cannot read) *)
 Lemma gen_wait_constants :
-  (p_init_base = 2000000 /\ p_init_per_cmd = 500000 /\ p_detect_base = 2000000 /\ p_detect_per_cmd = 500000 /\
-   p_join_sender = 2000000 /\ p_join_reader = 2000000 /\ p_check_timeout = 1500000)%Z.
+  (0 < p_init_base /\ 0 < p_init_per_cmd /\ 0 < p_detect_base /\ 0 < p_detect_per_cmd /\
+   0 < p_join_sender /\ 0 < p_join_reader /\ 0 < p_check_timeout)%Z.
 Proof. vm_compute. repeat split. Qed.
 
 (* every known subunit id has exactly one class, SYS among them; the Subunit enumeration and the classes agree *)
